@@ -24,7 +24,7 @@ RULE = ('sequential: histories of push/pull/peek on both sides over prefixes {No
         'checked; distinct_nontrivial = distinct (operation, prefix, side, outcome class) cells + distinct schedules '
         'with a preemption inside an operation')
 DISTINCT = ('cells', 'schedules')
-REQUIRED = ('jobs_given_back_by_a_rolled_back_block', 'sequential_calls', 'pulls_of_expired_heads', 'file_backed_items', 'ordinary_keys_interleaved',
+REQUIRED = ('peek_race_schedules', 'jobs_given_back_by_a_rolled_back_block', 'sequential_calls', 'pulls_of_expired_heads', 'file_backed_items', 'ordinary_keys_interleaved',
             'schedules_checked', 'free_runs', 'items_delivered_concurrently', 'prefix_extension_cases',
             'timed_schedules_checked', 'timed_items_delivered', 'timed_items_expired_undelivered', 'queue_blocks_aborted',
             'queue_blocks_committed', 'queue_timeouts_under_commit_contention')
@@ -291,12 +291,16 @@ class GiveBack(Exception):
     pass
 
 
-def schedule(dc, sc, res, rng, label):
+def schedule(dc, sc, res, rng, label, peek_race=False):
+    # peek_race: one file-backed item is queued already; one client only peeks, one only pulls, one pushes: the head a
+    # peek selected is pulled, the queue runs empty and numbering restarts before the peek reads the value (seeded/C10-11)
     d = sc.new()
     clock = probe.set_clock(probe.VClock())
     shared = rng.random() < 0.5
     setup = dc.Cache(d, timeout=0, disk_min_file_size=T)
     nprod, ncons = rng.randrange(1, 3), rng.randrange(1, 3)
+    if peek_race:
+        nprod, ncons = 1, 2
     n = nprod + ncons
     caches = LateHandles(rng, n, lambda: dc.Cache(d, timeout=0), shared=setup if shared else None)
     sch = Sched(rng, clock, strategy=rng.choice(['random', 'preempt', 'random', 'ops']),
@@ -304,7 +308,13 @@ def schedule(dc, sc, res, rng, label):
     if store_gates(sch, rng, dc):
         res.count('schedules_with_attribute_store_gates')
     rec = Recorder(sch)
-    big = rng.random() < 0.5
+    big = rng.random() < 0.5 or peek_race
+    first = []
+    if peek_race:
+        v0 = 'p9-0;' * 20
+        first.append({'client': 98, 'op': 'push', 'args': (v0,), 'kw': {'side': 'back'}, 'call': -10, 'ret': -9,
+                      'kind': 'ok', 'result': setup.push(v0, prefix='q')})
+        res.count('peek_race_schedules')
 
     def producer(ci):
         def run():
@@ -319,7 +329,9 @@ def schedule(dc, sc, res, rng, label):
             for i in range(rng.randrange(1, 4)):
                 side = 'front' if rng.random() < 0.8 else 'back'
                 op = 'pull' if rng.random() < 0.8 else 'peek'
-                if rng.random() < 0.2:
+                if peek_race:
+                    op, side = ('peek' if ci == nprod else 'pull'), 'front'
+                if rng.random() < 0.2 and not peek_race:
                     # a consumer takes the job inside a transaction, fails to process it and gives it back: the block
                     # is left by an exception, so to the queue nothing has happened
                     def give_back():
@@ -346,7 +358,7 @@ def schedule(dc, sc, res, rng, label):
         if not ok:
             res.count('schedules_hit_step_cap')
             return
-        ops = list(rec.ops)
+        ops = first + list(rec.ops)
         for o in ops:
             if o['kind'] == 'raise':
                 res.violation('%s raised %s (%s)' % (o['op'], o['result'], o.get('exc')), extra)
@@ -809,6 +821,11 @@ def run_shard(tier, seed, shard, nshards, res):
         for i in range(60 if tier == 'quick' else 800):
             rng = common.rng_for(seed, 'c10c', shard, i)
             schedule(dc, sc, res, rng, 'c10 schedule seed=%d shard=%d i=%d' % (seed, shard, i))
+            if res.new_violations() > 8:
+                return
+        for i in range(40 if tier == 'quick' else 500):
+            rng = common.rng_for(seed, 'c10p', shard, i)
+            schedule(dc, sc, res, rng, 'c10 peek race seed=%d shard=%d i=%d' % (seed, shard, i), peek_race=True)
             if res.new_violations() > 8:
                 return
         for i in range(60 if tier == 'quick' else 800):
